@@ -24,6 +24,7 @@ var subjPool = []string{"aabxaab", "abcabcabc", "xyzzy aab ab b", "ΑΒΓaabbΩ"
 
 // re2-compatible and regexp2-only (lookahead/backreference/lookbehind) patterns
 var rePool = []string{"a+(b)?", "(a)(b)?", "[a-c]+", "\\w+\\s?", "(?<n>a)b", ".", "b|a", "a*?b", // re2
+	"\\d*", "a*", "b?", "(?:)", "\\s*", // re2, can match the empty string (split/replace then need the other matcher)
 	"(a)\\1", "a(?=b)", "(?<!x)a+", "(?<n>a)\\k<n>", "(?!b)[ab]", "(a+)(?=b)\\1?", "\\u{1F600}|a"} // regexp2 (last one needs u)
 
 func drawSubj(t *rapid.T) string {
